@@ -184,11 +184,16 @@ def ensure_facts(all_targets=False):
         d = os.path.join(CACHE, "facts", h + ("-all" if all_targets else ""))
         if not os.path.isdir(d):
             run_extraction(d, all_targets)
-            # keep the cache small: drop all other fact sets of the same flavour
-            for other in os.listdir(os.path.join(CACHE, "facts")):
-                full = os.path.join(CACHE, "facts", other)
-                if full != d and other.endswith("-all") == all_targets and not other.endswith(".partial"):
+            # keep the cache small: the 4 most recent fact sets per flavour
+            root = os.path.join(CACHE, "facts")
+            same = [os.path.join(root, o) for o in os.listdir(root)
+                    if o.endswith("-all") == all_targets and not o.endswith(".partial")]
+            same.sort(key=os.path.getmtime, reverse=True)
+            for full in same[4:]:
+                if full != d:
                     shutil.rmtree(full, ignore_errors=True)
+        else:
+            os.utime(d, None)
         if not os.path.exists(os.path.join(d, "synscan.jsonl")) and os.path.isdir(os.path.join(VERIF, "synscan")):
             run_synscan(d)
         return d, h, nfiles
